@@ -34,7 +34,7 @@ pub const ASSUMPTIONS: &[&str] = &[
     "Aiken projects are Plutus V3 only; blueprints of other language versions are obtained by re-tagging the built programs (what a blueprint written by an older compiler looks like) and must keep their language through every application and save / load",
 ];
 
-pub const RULE: &str = "generated modules with data types and one or two validators (`v` with 1-4 parameters of serialisable types - user types, Option, lists, tuples, lists of pairs, Int, ByteArray, Bool, Data - and spend + mint + else handlers whose verdict depends on every parameter and on their order; optionally `w` with 1-2 parameters), blueprints built through `Blueprint::new`, language tag V3 / V2 / V1; histories of up to 10 steps: apply a conforming value, a near miss (one mutation, see C12) or arbitrary Data to `v` or `w` addressed by name, by module or not at all, or save to JSON text and load back. Non-trivial = at least two successive accepted applications to one validator with a save / load in between, at least one rejected application, and the final code succeeds on one script context and fails on another; distinct by (source, history).";
+pub const RULE: &str = "generated modules with data types and one or two validators (`v` with 1-4 parameters of serialisable types - user types, Option, lists, tuples, lists of pairs, Int, ByteArray, Bool, Data - and spend + mint + else handlers whose verdict depends on every parameter and on their order; optionally a second validator `w`, `v_2` or `vv` with 1-2 parameters), blueprints built through `Blueprint::new`, language tag V3 / V2 / V1; histories of up to 10 steps: apply a conforming value, a near miss (one mutation, see C12) or arbitrary Data to either validator addressed by name, by module or not at all, or save to JSON text and load back. Non-trivial = at least two successive accepted applications to one validator with a save / load in between, at least one rejected application, and the final code succeeds on one script context and fails on another; distinct by (source, history).";
 
 fn no_fn_or_var(t: &Ty) -> bool {
     no_standalone_pair(t, false)
@@ -138,6 +138,9 @@ fn judge(src: &mut Src, st: &mut Stats) -> CheckResult {
     let nv = 1 + g.src.weighted(&[2, 4, 3, 2]);
     let v_tys: Vec<Ty> = (0..nv).map(|_| pick_ty(&mut g)).collect();
     let with_w = g.src.chance(3, 5);
+    // the second validator's name may extend the first one's (`v` / `v_2`): entries are told
+    // apart by their whole `module.validator` prefix, not by a common beginning
+    let wname: &'static str = *g.src.pick(&["w", "v_2", "vv", "w"]);
     let w_tys: Vec<Ty> = if with_w { (0..1 + g.src.below(2)).map(|_| pick_ty(&mut g)).collect() } else { vec![] };
     // conforming values for every parameter (two candidates each)
     let mut cands: Vec<Vec<crate::model::interp::V>> = vec![];
@@ -160,7 +163,7 @@ fn judge(src: &mut Src, st: &mut Stats) -> CheckResult {
     if with_w {
         let fw = (0..w_tys.len()).map(|i| format!("d{i}")).collect::<Vec<_>>().join(", ");
         source.push_str(&format!(
-            "\nvalidator w({}) {{\n  spend(_d: Option<Data>, r: Data, _o: Data, _tx: Data) {{\n{}    let l: List<Data> = [{fw}]\n    let ld: Data = l\n    ld == r\n  }}\n\n  else(_) {{\n    fail\n  }}\n}}\n",
+            "\nvalidator {wname}({}) {{\n  spend(_d: Option<Data>, r: Data, _o: Data, _tx: Data) {{\n{}    let l: List<Data> = [{fw}]\n    let ld: Data = l\n    ld == r\n  }}\n\n  else(_) {{\n    fail\n  }}\n}}\n",
             params(&w_tys, "q"),
             lets(&w_tys, "q")
         ));
@@ -184,7 +187,7 @@ fn judge(src: &mut Src, st: &mut Stats) -> CheckResult {
     let it = Interp::new(&module, 0);
     let mut models = vec![VModel { name: "v", tys: v_tys.clone(), applied: vec![] }];
     if with_w {
-        models.push(VModel { name: "w", tys: w_tys.clone(), applied: vec![] });
+        models.push(VModel { name: wname, tys: w_tys.clone(), applied: vec![] });
     }
     let offset = |mi: usize| if mi == 0 { 0 } else { v_tys.len() };
 
